@@ -83,7 +83,7 @@ CHECKS = {
          "Relies on the Go race detector (reports unsynchronised conflicting accesses that actually happen in the observed execution). A write to a shared singleton that every build performs is observed with near certainty; a race that needs a rare program feature on two goroutines at once may be missed.",
          "concurrent stress testing under the race detector with a sequential-equivalence oracle"),
  "C15": ("exploration",
-         "Generated multi-file packages that put at least two items into every unordered collection the builder keeps (imports per file, files, overload families and overloaded named types of imported XGo packages, XGo dependency packages of exported signatures incl. two with the same package name, 2-3 blank imports per file, commented statements) are built repeatedly: K times with a fresh importer per build, K times with one importer shared by all builds (K = 8 quick, 24 thorough), and in two child processes for every 8th history; all written files must be byte-identical. Metamorphic repetition, sampling of histories.",
+         "Generated multi-file packages that put at least two items into every unordered collection the builder keeps (imports per file, files, overload families and overloaded named types of imported XGo packages, XGo dependency packages of exported signatures incl. two with the same package name, 2-3 blank imports per file, commented statements) are built repeatedly: K times with a fresh importer per build, K times with one importer shared by all builds (K = 8 quick, 24 thorough), and in two child processes for every 8th history; all written files must be byte-identical. Metamorphic repetition, sampling of histories. One case in six reaches the XGo packages only through a plain Go package (an exported function declared through the API with the result tuple of a function of that package), and with the shared importer an unrelated package that imports the XGo packages directly is built between the builds.",
          "DESIGN.md §7 C15",
          "Go randomises map iteration per range statement, so K repetitions miss a two-way order dependence with probability 2^-(K-1); dependence on pointer values or time would show as differences between processes.",
          "property-based metamorphic testing: repeated builds of generated histories, within and across processes"),
